@@ -172,6 +172,7 @@ def census_for(ctx, rule, prop_id, label, roots_fn, only=None):
     """run the census for every loaded profile"""
     reviews = census.load_reviews()
     total = 0
+    ctx.rep.both_profiles(rule)
     for prof, F in sorted(ctx.facts.items()):
         prepare(ctx, F)
         nb, ns = census.run_census(ctx, rule, roots_fn(F), F, reviews, prop_id, label, only=only)
